@@ -465,7 +465,12 @@ def opOn (d : DState) (ts : List String) : Option (DState × String) :=
     match k.toNat? with
     | some k =>
       match d.rstreams[k]? with
-      | some r => if r.reset || d.remoteClosed then fin d "none" else fin d "ok"
+      | some r =>
+        -- data is sent only after a proposal for an installed protocol (anything else would be read as a proposal)
+        let proposed := match r.proposal with
+          | some (some _) => true
+          | _ => false
+        if r.reset || d.remoteClosed || !proposed then fin d "none" else fin d "ok"
       | none => fin d "none"
     | none => none
   | _ => none
